@@ -27,6 +27,10 @@ def main():
     results = json.loads(res_path.read_text()) if res_path.exists() else {}
     dirs = sorted(d for d in (VERIF / "seeded").iterdir() if d.is_dir() and (d / "patch.diff").exists())
     touched = set()
+    if a.worktree:      # scratch worktrees follow /repo's HEAD (fix commits land while they exist)
+        head = subprocess.run(["git", "-C", "/repo", "rev-parse", "HEAD"], capture_output=True, text=True).stdout.strip()
+        subprocess.run(["git", "-C", tree, "checkout", "-q", "--", "."], check=False)
+        subprocess.run(["git", "-C", tree, "checkout", "-q", "--detach", head], check=False)
     for d in dirs:
         meta = json.loads((d / "meta.json").read_text())
         pid = meta["property"]
